@@ -111,3 +111,78 @@ def make_sim_polars_model(plan: AbortPlan, use_lazy_eval: bool = True):
             return super().clean_copy(df)
 
     return SimPolarsModel(use_lazy_eval=use_lazy_eval)
+
+
+# ---------------------------------------------------------------------------------------------------------
+# Instance-level interposition on an *existing* model object (the process-wide default Pandas / Polars model
+# that eval(), transform(), ex() and >> use when no data_model is given).  The step functions look their
+# call-backs up through `self`, so instance attributes shadow the class methods; nothing in /repo changes.
+# ---------------------------------------------------------------------------------------------------------
+PANDAS_HOOKS = ["_eval_value_source", "clean_copy", "columns_to_frame_", "table_is_keyed_by_columns",
+                "add_data_frame_columns_to_data_frame_", "drop_indices"]
+POLARS_HOOKS = ["_compose_polars_ops", "clean_copy"]
+
+
+class Installed:
+    def __init__(self):
+        self.undo = []
+
+    def uninstall(self):
+        for obj, name, had, old in reversed(self.undo):
+            if had:
+                setattr(obj, name, old)
+            else:
+                try:
+                    delattr(obj, name)
+                except AttributeError:
+                    pass
+        self.undo = []
+
+
+def install_hooks(model, plan: AbortPlan, inst: Installed):
+    import pandas
+
+    is_pandas = hasattr(model, "pd") and hasattr(model, "_eval_value_source")
+    names = PANDAS_HOOKS if is_pandas else POLARS_HOOKS
+
+    def wrap(name, orig):
+        if name in ("_eval_value_source", "_compose_polars_ops"):
+            def w(*a, **k):
+                node = a[0] if a else (k.get("s") or k.get("op"))
+                plan.tick("node:" + getattr(node, "node_name", "?"))
+                return orig(*a, **k)
+        else:
+            def w(*a, **k):
+                plan.tick(name)
+                return orig(*a, **k)
+        return w
+
+    for name in names:
+        if not hasattr(model, name):
+            continue
+        had = name in model.__dict__
+        old = model.__dict__.get(name)
+        orig = getattr(model, name)
+        setattr(model, name, wrap(name, orig))
+        inst.undo.append((model, name, had, old))
+    if is_pandas:
+        real_pd = model.pd
+
+        class _Proxy(types.ModuleType):
+            def __getattr__(self, nm):
+                return getattr(real_pd, nm)
+
+        proxy = _Proxy("pandas_proxy")
+
+        def merge(*a, **k):
+            plan.tick("pd.merge")
+            return real_pd.merge(*a, **k)
+
+        def concat(*a, **k):
+            plan.tick("pd.concat")
+            return real_pd.concat(*a, **k)
+
+        proxy.merge = merge
+        proxy.concat = concat
+        inst.undo.append((model, "pd", True, real_pd))
+        model.pd = proxy
